@@ -487,7 +487,9 @@ func reachableRefs(lay *fsgen.Layout) []fsgen.RefSite {
 	}
 	var out []fsgen.RefSite
 	for _, s := range all {
-		if reach[s.File] {
+		// references inside an extension area are resolved only if something refers to that area:
+		// a document being read does not demand them
+		if reach[s.File] && !(len(s.Ptr) > 0 && s.Ptr[0] == "x-defs") {
 			out = append(out, s)
 		}
 	}
